@@ -1,6 +1,7 @@
 /- The `world` request kind: run the timed model at `K = Float` on a recorded message history. -/
 import DriverLib.Gens
 import Wheatley.Model.World
+import Wheatley.Model.Solo
 import DriverLib.ParseDrv
 open Lean Wheatley
 
@@ -147,5 +148,17 @@ def handleWorld (j : Json) : R Json := do
                  ("now", jFloat w.now), ("max_dev", jFloat w.maxDev), ("tape_left", jNat w.tape.length),
                  ("delay", jFloat w.delay),
                  ("row_number", jNat w.bot.rowNumber), ("is_ringing", Json.bool w.bot.isRinging)]
+
+/-- The `solo` request kind: the tick loop of C11 (`soloTimes`, the object of the theorem
+`C11.solo_closed_form`) evaluated at `Float` for a configuration: the strike times of `rows` whole
+rows after `initialise_line(N, False, start)`. -/
+def handleSolo (j : Json) : R Json := do
+  let n ← natF j "N"
+  let rows ← natF j "rows"
+  let reg0 : Reg Float := Reg.init (← floatF j "inertia") (Float.ofNat (← natF j "peal_speed")) (← floatF j "gap")
+    Generated.minBellsInDataset 15 0.0
+  let reg := reg0.initialiseLine regress n false (← floatF j "start")
+  let ts := soloTimes reg (← floatF j "now") (rowMajor n rows)
+  return jObj [("times", jArr (ts.map jFloat))]
 
 end Drv
